@@ -24,7 +24,7 @@ def run(ctx):
     n = {'quick': 8000, 'thorough': 200000}[ctx.tier]
 
     def oracle(case, fi, fm):
-        v = W.oracle_calls(case, fi, fm)
+        v = W.oracle_calls(case, fi, fm) or W.oracle_fatal(case, fi, fm)
         if v:
             return v
         # no panic unless an extractor panics (the case line carries the panic flags: "=<err><panic>:")
